@@ -244,7 +244,7 @@ class MCLevyCopulaSimulationFixedTimes(MCLevyCopulaSimulation, SimulationFixedTi
         # simulate the jump values
         simulated_jumps = self.simulate_jumps()
         jumps = np.hstack(
-            (np.zeros(self._dimension)[:, np.newaxis], simulated_jumps[:, np.newaxis])
+            (np.zeros(self._dimension)[:, np.newaxis], simulated_jumps)
         )
 
         # simulate the diffusion part
@@ -266,10 +266,11 @@ class MCLevyCopulaSimulationFixedTimes(MCLevyCopulaSimulation, SimulationFixedTi
     @staticmethod
     def project(values, dim):
         zero = (0.0,) * dim
-        definitive_values = (
+        definitive_values = [
             sliceStates[-1] if sliceStates.size else zero for sliceStates in values
-        )
-        return np.array(*definitive_values)
+        ]
+        # one row per interval (sum of its jumps) -> running sums, one column per product date
+        return np.cumsum(np.array(definitive_values, dtype=float), axis=0).T
 
     def simulate_jumps(self):
         mc = self.simulate_markov_chain()
